@@ -1914,6 +1914,10 @@ func checkStdoutHandle(p *core.Program, r *core.Report) {
 						r.Fail("R17.5", core.FuncName(fn), "address of os.Stdout is passed on", p.InstrPos(in), "")
 					}
 				}
+				if f := core.StaticCallee(c); f != nil && f.Pkg != nil && (f.Pkg.Pkg.Path() == "os/exec" || core.CallName(c) == "os.StartProcess" || core.CallName(c) == "syscall.ForkExec" || core.CallName(c) == "syscall.Exec") {
+					nBad++
+					r.Fail("R17.5", core.FuncName(fn), "a child process is started ("+core.CallName(c)+")", p.InstrPos(in), "a child inherits descriptor 1: what it prints is not counted by the one-line rule")
+				}
 				switch core.CallName(c) {
 				case "os.NewFile", "syscall.Write", "syscall.Syscall", "syscall.RawSyscall", "os.OpenFile", "syscall.Dup2", "syscall.Dup3":
 					// os.OpenFile("/dev/stdout") and descriptor arithmetic: a second name for descriptor 1
